@@ -6,9 +6,9 @@ package engine
 
 import (
 	"crypto/sha256"
-	mbits "math/bits"
 	"fmt"
 	"math/big"
+	mbits "math/bits"
 	"reflect"
 	"runtime"
 	"strings"
